@@ -72,4 +72,42 @@ CLAIMS = {
         'technique': 'static analysis: exception-edge CFG reachability, resolved call-graph closure, '
                      'interprocedural taint of the exception object, table extraction (ast only)',
     },
+    'C01': {
+        'text': "The resolver core is tabulated, not sampled: a whitelist abstract interpreter executes the ASTs of "
+                "FinalFeedback.merge/finalize/parse_feedback over the full product of 11 suppression scenarios x "
+                "triggered x muted x kind x else_message x correct (792 cells) plus ordered pairs and triples, and "
+                "compares the delivered label/title/message with an oracle transcribed from the property; a cell "
+                "that evaluates to an exception is a never-raises finding that names the raising expression. The "
+                "rank table is compared with the documented order, by_priority o priority_offset is tabulated over "
+                "all categories x priorities x aliases (rank order, re-ranking, strict in-rank shifts, totality), "
+                "and every resolver is checked for a single stable key-only sort of report.feedback in creation "
+                "order, merge-all-then-finalize, and Report.add_feedback being the only appender.",
+        'note': _NOTE + "Not decided: instructor-written Feedback subclasses that break the attribute contract; "
+                        "message text. Stability of list.sort is CPython's guarantee.",
+        'technique': 'static analysis: finite-domain decision tables by whitelist abstract interpretation of the '
+                     'resolver ASTs, table vs documented order, who-writes ownership (ast only)',
+    },
+    'C02': {
+        'text': "Same abstract interpretation of merge/finalize: the resolved `correct` is compared with the "
+                "conjunction oracle over 792 single-feedback cells and 1400+ ordered pairs/triples mixing "
+                "set_correct-, compliment-, give_partial-like and negative feedback with and without suppression; "
+                "the initial FinalFeedback's arguments are checked; a class table over all 170+ Feedback subclasses "
+                "in pedal shows no negative-valence or syntax/runtime/algorithmic/specification class declares "
+                "correct=True.",
+        'note': _NOTE + "Not decided: instructor-defined subclasses.",
+        'technique': 'static analysis: finite-domain decision table of merge/finalize, class-attribute table over '
+                     'the Feedback hierarchy (ast only)',
+    },
+    'C03': {
+        'text': "The score pipeline (merge's inversion flag, Score.parse on the literal SCORE_PATTERN, "
+                "add_to_current, combine_scores, finalize) is composed by abstract interpretation and tabulated over "
+                "valence x triggered x 10 score forms x unscored x muted x suppressed (1280 cells) plus sums of "
+                "2-3 scored feedbacks, against the documented arithmetic rounded to two decimals; Score.parse is "
+                "tabulated over 12 strings; numeric scores are checked for writer/reader agreement with the pattern; "
+                "unit_test's per-case split is checked structurally.",
+        'note': _NOTE + "Not decided: floating-point rounding of sums outside the table; Score.__str__'s integer "
+                        "rounding when a total is split among unit tests.",
+        'technique': 'static analysis: finite-domain decision table of the composed score pipeline, regex AST, '
+                     'writer/reader agreement (ast only)',
+    },
 }
